@@ -119,6 +119,10 @@ def to_boolean(value: JSValue) -> bool:
 
 
 # ECMAScript WhiteSpace and LineTerminator code points (trimmed by ToNumber and trim)
+# Longest dense array, typed array or buffer a script can ask for in one step
+# (arrays have no holes, so a length is an allocation)
+MAX_ARRAY_LENGTH = 2**26
+
 JS_WHITESPACE = (
     "\t\n\x0b\x0c\r \xa0\u1680\u2000\u2001\u2002\u2003\u2004\u2005\u2006"
     "\u2007\u2008\u2009\u200a\u2028\u2029\u202f\u205f\u3000\ufeff"
